@@ -1,66 +1,327 @@
-"""Insertion-ordered map model (collections.OrderedDict) -- see DESIGN.md 3.3.
+"""Insertion-ordered map model (collections.OrderedDict) for `pendingCommands` -- DESIGN.md 3.3.
 
-Abstract view: n entries; key(i), value(i) for 0 <= i < n in insertion order; keys pairwise distinct.
-Values are opaque items (strings or argument maps)."""
+Abstract view: n entries in insertion order; key(i): String (pairwise distinct); value(i) is either a command string
+or an argument map (letter code -> present / valueless / number).  All of it lives in z3 arrays so that the
+view of a map of arbitrary symbolic size can be compared before/after an operation."""
 import z3
 
 from . import ops
-from .values import Model, Unsupported, SymSeq, next_oid
+from .values import Model, Unsupported, SymSeq, Opt, next_oid, PyDict, is_strlike
+from .stubs import sstr_to_z3
+
+I, B, R, S = z3.IntSort(), z3.BoolSort(), z3.RealSort(), z3.StringSort()
+AB, AR = z3.ArraySort(I, B), z3.ArraySort(I, R)
+
+
+class View(object):
+    """Immutable abstract value of an ordered map."""
+
+    def __init__(self, n, key, is_map, sval, mhas, mnone, mval):
+        self.n, self.key, self.is_map, self.sval, self.mhas, self.mnone, self.mval = n, key, is_map, sval, mhas, mnone, mval
+
+    def fields(self):
+        return (self.key, self.is_map, self.sval, self.mhas, self.mnone, self.mval)
+
+    def with_(self, n=None, **kw):
+        d = dict(n=self.n if n is None else n, key=self.key, is_map=self.is_map, sval=self.sval, mhas=self.mhas,
+                 mnone=self.mnone, mval=self.mval)
+        d.update(kw)
+        return View(**d)
+
+
+def fresh_view(ctx, name):
+    def arr(suffix, rng):
+        return z3.Array(ctx.fresh_name("%s.%s" % (name, suffix)), I, rng)
+    return View(ctx.int(name + ".len", record=False), arr("key", S), arr("isMap", B), arr("str", S), arr("mhas", AB),
+                arr("mnone", AB), arr("mval", AR))
+
+
+def empty_argmap_arrays():
+    return z3.K(I, z3.BoolVal(False)), z3.K(I, z3.BoolVal(False)), z3.K(I, z3.RealVal(0))
 
 
 class ArgMap(Model):
+    """A python dict {letter: number | None} (the merged arguments of a deferred command)."""
+
     clsname = "dict"
+
+    def __init__(self, has, none, val):
+        self.has, self.none, self.val = has, none, val
+        self.oid = next_oid()
+        self.fresh = True
+        self.loop_local = True
+
+    @classmethod
+    def empty(cls):
+        return cls(*empty_argmap_arrays())
+
+    def call_method(self, interp, name, args, kwargs, node):
+        if name == "__setitem__":
+            from .gitems import Label
+            label, value = args
+            if not isinstance(label, Label):
+                raise Unsupported("argument map key %r" % (label,), node)
+            interp.ctx.log_write(self, "*")
+            c = label.code
+            self.has = z3.Store(self.has, c, z3.BoolVal(True))
+            if value is None:
+                self.none = z3.Store(self.none, c, z3.BoolVal(True))
+            elif isinstance(value, Opt):
+                self.none = z3.Store(self.none, c, ops.lift(value.isnone))
+                self.val = z3.Store(self.val, c, value.val)
+            else:
+                self.none = z3.Store(self.none, c, z3.BoolVal(False))
+                self.val = z3.Store(self.val, c, ops.lift(interp.num(value, node)))
+            return None
+        if name == "__bool__":
+            raise Unsupported("truth value of an argument map", node)
+        raise Unsupported("dict.%s on an argument map" % name, node)
+
+    def copy(self, memo=None):
+        return ArgMap(self.has, self.none, self.val)
+
+    def struct_eq(self, other):
+        return argmap_eq((self.has, self.none, self.val), (other.has, other.none, other.val))
+
+    def read(self, key):
+        return self
+
+
+def argmap_eq(a, b):
+    """Same set of letters with the same values (valueless letters compare equal)."""
+    L = z3.Int("L!%d" % next_oid())
+    ha, na, va = a
+    hb, nb, vb = b
+    return z3.ForAll([L], z3.And(z3.Select(ha, L) == z3.Select(hb, L),
+                                 z3.Implies(z3.Select(ha, L), z3.And(z3.Select(na, L) == z3.Select(nb, L),
+                                                                     z3.Implies(z3.Not(z3.Select(na, L)), z3.Select(va, L) == z3.Select(vb, L))))))
+
+
+class Entry(object):
+    """Element i of a view (spec side)."""
+
+    def __init__(self, view, i):
+        self.view, self.i = view, i
+
+    key = property(lambda s: z3.Select(s.view.key, s.i))
+    is_map = property(lambda s: z3.Select(s.view.is_map, s.i))
+    sval = property(lambda s: z3.Select(s.view.sval, s.i))
+    args = property(lambda s: (z3.Select(s.view.mhas, s.i), z3.Select(s.view.mnone, s.i), z3.Select(s.view.mval, s.i)))
+
+
+def entry_eq(a, b):
+    """Same key and same value."""
+    return z3.And(a.key == b.key, a.is_map == b.is_map, z3.If(a.is_map, argmap_eq(a.args, b.args), a.sval == b.sval))
 
 
 class OrdMap(Model):
     clsname = "OrderedDict"
 
-    def __init__(self, n, keys=None, tag="om"):
-        self.n = n
-        self.keys = keys
+    def __init__(self, view, tag="om"):
+        self._view = view
+        self.live = None         # (index term, ArgMap object) of an entry whose dict object may still be mutated
+        self.lookups = []        # ghost: (op, key, found, index) of every keyed access, for witnesses in contracts
         self.tag = tag
         self.oid = next_oid()
         self.fresh = False
 
+    # ---- construction
     @classmethod
     def empty(cls, ctx):
-        m = cls(z3.IntVal(0))
+        v = fresh_view(ctx, "emptymap")
+        m = cls(v.with_(n=z3.IntVal(0)))
         m.fresh = True
         return m
 
     @classmethod
     def symbolic(cls, ctx, name="pending"):
+        v = fresh_view(ctx, name)
         n = ctx.int(name + ".len")
+        v = v.with_(n=n)
         ctx.assume(n >= 0, definitional=True)
-        return cls(n, tag=name)
+        ctx.assume(distinct_keys(v), definitional=False)
+        return cls(v, tag=name)
+
+    # ---- abstract value
+    def view(self):
+        """Current abstract value (the contents of a live argument map are read now)."""
+        v = self._view
+        if self.live is not None:
+            idx, am = self.live
+            v = v.with_(mhas=z3.Store(v.mhas, idx, am.has), mnone=z3.Store(v.mnone, idx, am.none), mval=z3.Store(v.mval, idx, am.val))
+        return v
+
+    @property
+    def n(self):
+        return self._view.n
 
     def is_empty(self):
-        return self.n == 0
+        return self._view.n == 0
 
+    def _freeze(self):
+        self._view = self.view()
+        self.live = None
+
+    # ---- operations
     def call_method(self, interp, name, args, kwargs, node):
+        ctx = interp.ctx
         if name == "__bool__":
-            return self.n > 0
+            return self._view.n > 0
         if name == "__len__":
-            return self.n
+            return self._view.n
         if name == "clear":
-            interp.ctx.log_write(self, "*")
-            self.n = z3.IntVal(0)
+            ctx.log_write(self, "*")
+            self._freeze()
+            self._view = self._view.with_(n=z3.IntVal(0))
             return None
+        if name == "__contains__":
+            k = _key(args[0], node)
+            found, j = self._index_of(ctx, k)
+            self.lookups.append(("in", k, found, j))
+            return found
+        if name == "__setitem__":
+            return self._setitem(interp, _key(args[0], node), args[1], node)
+        if name == "pop":
+            return self._pop(interp, _key(args[0], node), args[1] if len(args) > 1 else _NODEFAULT, node)
+        if name == "items":
+            self._freeze()
+            v = self._view
+            return SymSeq(v.n, lambda i: (z3.Select(v.key, i), StoredValue(v, i)), name="pending.items")
         raise Unsupported("OrderedDict.%s" % name, node)
 
+    def _index_of(self, ctx, k):
+        """Fresh index j with: found <=> (0 <= j < n and key(j) == k); not found => no entry has the key."""
+        v = self._view
+        j = ctx.int("om.idx", record=False)
+        found = ctx.bool("om.found", record=False)
+        q = z3.Int("q!%d" % next_oid())
+        ctx.assumed.add("A2:OrderedDict lookup finds the (unique) entry with the key, if any")
+        ctx.assume(z3.And(z3.Implies(found, z3.And(j >= 0, j < v.n, z3.Select(v.key, j) == k)),
+                          z3.Implies(z3.Not(found), z3.ForAll([q], z3.Implies(z3.And(q >= 0, q < v.n), z3.Select(v.key, q) != k)))),
+                   definitional=True)
+        return found, j
+
+    def _store_value(self, v, idx, value, interp, node):
+        if isinstance(value, ArgMap):
+            return v.with_(is_map=z3.Store(v.is_map, idx, z3.BoolVal(True))), (idx, value)
+        if isinstance(value, PyDict) and not value.d:
+            am = ArgMap.empty()
+            return v.with_(is_map=z3.Store(v.is_map, idx, z3.BoolVal(True))), (idx, am)
+        z = sstr_to_z3(value) if is_strlike(value) else None
+        if z is None:
+            raise Unsupported("value stored in pendingCommands: %r" % (value,), node)
+        return v.with_(is_map=z3.Store(v.is_map, idx, z3.BoolVal(False)), sval=z3.Store(v.sval, idx, z)), None
+
+    def _setitem(self, interp, k, value, node):
+        ctx = interp.ctx
+        ctx.log_write(self, "*")
+        self._freeze()
+        value = interp.deref(value)
+        found, j = self._index_of(ctx, k)
+        self.lookups.append(("set", k, found, j))
+        v = self._view
+        if interp.truth(found, node):
+            nv, live = self._store_value(v, j, value, interp, node)          # value replaced, position kept
+        else:
+            nv, live = self._store_value(v.with_(key=z3.Store(v.key, v.n, k)), v.n, value, interp, node)
+            nv = nv.with_(n=v.n + 1)
+        self._view = nv
+        self.live = live
+        return None
+
+    def _pop(self, interp, k, default, node):
+        ctx = interp.ctx
+        self._freeze()
+        found, j = self._index_of(ctx, k)
+        self.lookups.append(("pop", k, found, j))
+        v = self._view
+        if interp.truth(found, node):
+            ctx.log_write(self, "*")
+            val = StoredValue(v, j).resolve(interp)
+            nv = fresh_view(ctx, "om.pop")
+            q = z3.Int("q!%d" % next_oid())
+            ax = []
+            for new, old in zip(nv.fields(), v.fields()):
+                ax.append(z3.ForAll([q], z3.Select(new, q) == z3.If(q < j, z3.Select(old, q), z3.Select(old, q + 1))))
+            ctx.assumed.add("A2:OrderedDict.pop removes the entry and keeps the order of the others")
+            ctx.assume(z3.And(*ax), definitional=True)
+            self._view = nv.with_(n=v.n - 1)
+            return val
+        if default is _NODEFAULT:
+            from .values import PyExc
+            raise PyExc("KeyError", ())
+        if isinstance(default, PyDict) and not default.d:
+            return ArgMap.empty()
+        return default
+
+    # ---- plumbing
     def copy(self, memo=None):
-        c = OrdMap(self.n, self.keys, self.tag)
+        c = OrdMap(self.view(), self.tag)
         c.fresh = True
         return c
 
     def struct_eq(self, other):
-        if self.keys is None and other.keys is None:
-            # contents are not modelled at this level: only emptiness can be compared
-            return z3.And(self.n == 0, other.n == 0) if not (self is other) else True
-        raise Unsupported("OrderedDict comparison")
+        return same_map(self.view(), other.view())
 
     def read(self, key):
         return self
 
     def children(self):
         return []
+
+    def havoc(self, ctx, tag):
+        self.live = None
+        v = fresh_view(ctx, "pending'" + tag)
+        ctx.assume(v.n >= 0, definitional=True)
+        self._view = v
+
+
+_NODEFAULT = object()
+
+
+class StoredValue(Model):
+    """value(i) of a view: a command string or an argument map (decided lazily)."""
+
+    clsname = "pending-value"
+
+    def __init__(self, view, i):
+        self.view, self.i = view, i
+
+    @property
+    def is_map(self):
+        return z3.Select(self.view.is_map, self.i)
+
+    def materialise(self):
+        """As a program value: must know which kind it is (the caller branches on is_map first)."""
+        return self
+
+    def as_argmap(self):
+        return ArgMap(z3.Select(self.view.mhas, self.i), z3.Select(self.view.mnone, self.i), z3.Select(self.view.mval, self.i))
+
+    def as_string(self):
+        return z3.Select(self.view.sval, self.i)
+
+    def resolve(self, interp):
+        if getattr(self, "_resolved", None) is None:
+            self._resolved = self.as_argmap() if interp.ctx.branch(self.is_map) else self.as_string()
+        return self._resolved
+
+    def call_method(self, interp, name, args, kwargs, node):
+        return interp.call_method(self.resolve(interp), name, args, kwargs, node)
+
+
+def _key(k, node):
+    z = sstr_to_z3(k) if is_strlike(k) else None
+    if z is None:
+        raise Unsupported("OrderedDict key %r" % (k,), node)
+    return z
+
+
+def distinct_keys(v):
+    i, j = z3.Int("i!%d" % next_oid()), z3.Int("j!%d" % next_oid())
+    return z3.ForAll([i, j], z3.Implies(z3.And(0 <= i, i < j, j < v.n), z3.Select(v.key, i) != z3.Select(v.key, j)))
+
+
+def same_map(a, b):
+    q = z3.Int("q!%d" % next_oid())
+    return z3.And(a.n == b.n, z3.ForAll([q], z3.Implies(z3.And(q >= 0, q < a.n), entry_eq(Entry(a, q), Entry(b, q)))))
